@@ -11,11 +11,12 @@ from .expr import ExprMixin
 from .calls import CallMixin
 from .loops import LoopMixin, CompMixin
 from .builtins import BuiltinMixin
+from .sqlite_model import SqliteMixin
 
 MAX_STATES = 4000
 
 
-class Executor(ExprMixin, CallMixin, LoopMixin, CompMixin, BuiltinMixin):
+class Executor(ExprMixin, CallMixin, LoopMixin, CompMixin, SqliteMixin, BuiltinMixin):
     def __init__(self, world, prop="", bounded=None):
         self.world = world
         self.prop = prop
